@@ -306,6 +306,14 @@ pub fn run_check(ctx: &Ctx) {
     let n = ctx.tier.pick(150_000u64, 3_000_000);
     ctx.run_gen("generated", pair, n, check, |p| make_case(p).map(|c| to_json(&c)).unwrap_or(Value::Null));
     ctx.run_gen("powers-apart-by-a-power-of-two", powers_apart, n / 15, |c| judge(shared_db(), c), |c| to_json(c));
+    // sums and casts whose left side is a power of a quantity with the unit's power around the 32-bit boundary
+    ctx.run_gen(
+        "operand-with-unit-power-at-the-32-bit-boundary",
+        || crate::props::c04::power_boundary().prop_filter("a sum or a cast", |c| c.query.contains(" + ") || c.query.contains(" to ")),
+        1_500,
+        |c| judge(shared_db(), c),
+        |c| to_json(c),
+    );
     ctx.run_gen(
         "sum-chains",
         chain,
